@@ -10,6 +10,14 @@ use std::panic::{catch_unwind, AssertUnwindSafe};
 static mut SNAP_BASE: u64 = 0;
 static mut COMMIT_SEQ: u64 = 0;
 
+thread_local! { static NOTES: std::cell::RefCell<Vec<String>> = std::cell::RefCell::new(Vec::new()); }
+
+pub fn install_note_hook() {
+    jammdb::verif::set_note_hook(Some(Box::new(|s: &str| {
+        NOTES.with(|n| n.borrow_mut().push(s.to_string()));
+    })));
+}
+
 /// entry points of the LD_PRELOAD shim, when it is loaded
 pub struct Shim {
     mark: Option<unsafe extern "C" fn(*const libc::c_char)>,
@@ -486,6 +494,25 @@ impl Env {
                 let r = jammdb::verif::open_readers(db);
                 format!("[{}]", r.iter().map(|x| x.to_string()).collect::<Vec<_>>().join(","))
             }
+            "pretrees" => {
+                // the overlay tree of every bucket the transaction has opened, as it is before commit
+                let tx = self.tx_ref(num(1));
+                NOTES.with(|n| n.borrow_mut().clear());
+                let v = jammdb::verif::tx_trees(tx);
+                v.iter().map(|(p, d, t)| format!("{}|{}|{}", if p.is_empty() { "-" } else { p.as_str() }, *d as u8, t)).collect::<Vec<_>>().join(";")
+            }
+            "notes" => {
+                // what rebalance / split reported during the last commit
+                NOTES.with(|n| {
+                    let v = n.borrow().join("|");
+                    n.borrow_mut().clear();
+                    if v.is_empty() {
+                        "-".to_string()
+                    } else {
+                        v.replace(' ', ",")
+                    }
+                })
+            }
             "tree" => {
                 let b = &self.buckets.get(&num(2)).expect("unknown handle").1;
                 jammdb::verif::tree_dump(b)
@@ -546,6 +573,7 @@ pub fn main(args: &[String]) {
     let out = std::fs::File::create(&args[1]).expect("create output");
     let dbpath = args.get(2).cloned().unwrap_or_else(|| format!("/dev/shm/jh-{}.db", std::process::id()));
     let mut out = BufWriter::new(out);
+    install_note_hook();
     let mut env = Env::new(&dbpath);
     let watchdog_secs: u32 = std::env::var("JH_WATCHDOG").ok().and_then(|v| v.parse().ok()).unwrap_or(120);
     for line in std::io::BufReader::new(inp).lines() {
